@@ -385,7 +385,9 @@ pub fn setups(max_len: usize, batch_sizes: &[usize]) -> Vec<Setup> {
         let resources: Vec<(bool, u8)> = ms.iter().map(|a| (*a >= AMOUNTS.len(), (*a % AMOUNTS.len()) as u8)).collect();
         for asset_x in [false, true] {
             for ids_descending in [false, true] {
-                if ids_descending && resources.len() < 2 {
+                // the id order only decides ties between a coin and a message coin of
+                // equal amount; for a non-base asset message coins are not candidates
+                if ids_descending && (resources.len() < 2 || asset_x) {
                     continue;
                 }
                 for &batch_size in batch_sizes {
@@ -470,14 +472,16 @@ pub fn main(cli: &Cli) {
     let mut run = Run::new(cli, "exploration");
     let max_len = cli.tier.pick(4, 5);
     let batch_sizes: Vec<usize> = cli.tier.pick(vec![100], vec![1, 100]);
-    let all = setups(max_len, &batch_sizes);
-    let sw = par_sweep(
+    let mut all = setups(max_len, &batch_sizes);
+    all.sort_by_key(|s| s.resources.len());
+    let mut sw = par_sweep(
         "coins_to_spend",
         "every multiset of <= N owner resources over {coin, message coin} x amounts {1,2,3,10,u64::MAX} (+ fixed distractors: other owner, other asset, message with data, spent coin, spent message), queried asset base / non-base, ids ascending / descending, x path {indexed, non-indexed} x target {0,1,4,11,2^64} x max {0,1,2,255} x partial x every exclusion subset x every outcome of the dust-count draw / of the shuffle; non-trivial = the answer is an error or a non-empty selection; distinct by the whole input incl. choices",
         all.len(),
         cli.threads,
         |i, sw| eval_setup(&all[i], sw),
     );
+    crate::first_witnesses(&mut sw, all.len(), |i, sw| eval_setup(&all[i], sw));
     for need in ["indexed:ok-covers-target", "non-indexed:ok-covers-target", "indexed:ok-partial-below-target", "non-indexed:ok-partial-below-target", "indexed:err-insufficient-coins", "non-indexed:err-insufficient-coins", "indexed:err-max-coins-reached", "non-indexed:err-max-coins-reached"] {
         if !sw.outcomes.contains_key(need) && sw.violations.is_empty() {
             machinery_failure(&format!("C37: vacuous sweep, outcome class {need} never produced"));
